@@ -1,9 +1,9 @@
 ----------------------------- MODULE MC_Entrypoints -----------------------------
-EXTENDS Entrypoints, Json
+EXTENDS Entrypoints, Json, SequencesExt
 CONSTANTS MaxStack
 VARIABLES c, done
-PM == {"P1", "P2", "L1", "MI", "RE"}
-UM == {"P1", "P2", "L1", "AE", "RE"}
+PM == {"P1", "P2", "L1", "MI", "RE", "DR"}
+UM == {"P1", "P2", "L1", "AE", "RE", "DR"}
 RECURSIVE Seqs(_, _)
 Seqs(S, n) == IF n = 0 THEN {<<>>} ELSE LET p == Seqs(S, n - 1) IN p \cup {Append(s, m) : s \in {x \in p : Len(x) = n - 1}, m \in S}
 Containers == {"list", "tuple", "iter"}
@@ -20,9 +20,12 @@ SpliceLib == <<[id |-> "c0", typ |-> "icomment"], [id |-> "e1", typ |-> "entry"]
                [id |-> "p1", typ |-> "preamble"], [id |-> "f1", typ |-> "failed"], [id |-> "c1", typ |-> "ecomment"],
                [id |-> "e2", typ |-> "entry"]>>
 Policy(t, k) == [y \in Typs \cup {"failed"} |-> IF y = t THEN k ELSE IF y = "failed" THEN "pass" ELSE "same"]
-SpliceCfgs == [side : {"splice"}, typ : Typs, kind : Kinds]
+\* level "method": the middleware overrides transform_<type>; level "block": it overrides transform_block itself and so
+\* also decides about failed blocks (which no transform_<type> method receives)
+SpliceCfgs == [side : {"splice"}, typ : Typs, kind : Kinds, level : {"method", "block"}]
+         \cup [side : {"splice"}, typ : {"failed"}, kind : Kinds, level : {"block"}]
 Result(x) == CASE x.side = "parse" -> ParseString(x.ps, x.app)
-               [] x.side = "write" -> WriteString([layers |-> 0, log |-> <<>>, mint |-> FALSE], x.ps, x.app)
+               [] x.side = "write" -> WriteString([layers |-> 0, log |-> <<>>, mint |-> FALSE, live |-> TRUE], x.ps, x.app)
                [] x.side = "splice" -> SpliceAll(SpliceLib, Policy(x.typ, x.kind), <<>>)
 Init == c = [side |-> "init"] /\ done = FALSE
 Next == /\ ~done /\ done' = TRUE
@@ -36,8 +39,12 @@ Next == /\ ~done /\ done' = TRUE
 InvOrder == c.side \in {"parse", "write"} /\ ~Result(c).err =>
               LET st == IF c.side = "parse" THEN BuildParseStack(c.ps, c.app).stack ELSE BuildUnparseStack(c.ps, c.app).stack
                   lg == Result(c).e.log
-                  probes == SelectSeq(st, LAMBDA m : m \in {"P1", "P2", "P3", "L1"})
-              IN [i \in DOMAIN lg |-> lg[i][1]] = probes
+                  dr == SelectInSeq(st, LAMBDA m : m = "DR")       \* 0 if none
+                  seen == IF dr = 0 THEN st ELSE SubSeq(st, 1, dr - 1)
+                  probes == SelectSeq(seen, LAMBDA m : m \in {"P1", "P2", "P3", "L1"})
+              IN /\ [i \in DOMAIN lg |-> lg[i][1]] = probes
+                 /\ Result(c).e.live = (dr = 0)
+                 /\ (c.side = "write" /\ dr # 0 => Result(c).text = "")
 \* a library handed in is transformed as a whole: the earlier entry's log equals the new entry's in probe names
 InvInto == c.side = "parse" /\ ~Result(c).err =>
               LET a == Result(c).e.log  b == Result(c).pre.log IN
